@@ -214,6 +214,13 @@ fn build_source(level: usize, groups: &[Vec<Cfg>], stems: &mut Stems, rng: &mut 
             s.push_str("    },\n}\n");
         }
     }
+    // a quarter of the files spell every attribute with something between `cfg` and its parenthesis (white space, a line
+    // break, a comment): the same attribute to rustc and to syn
+    let s = match rng.below(8) {
+        0 => s.replace("cfg(", "cfg ("),
+        1 => s.replace("cfg(", "cfg\n    ("),
+        _ => s,
+    };
     (s, st)
 }
 
@@ -438,7 +445,7 @@ pub fn run(ctx: &Ctx) -> (Spec, Report) {
     let spec = Spec {
         level: "exploration",
         rule: format!(
-            "cfg expressions over any/all/not with leaves target_os=a|b|c, feature, unix: all {n3} expressions of depth <= 3 (depth 1 complete, deeper levels pair one deep child with a leaf in both child orders) x all 16 target lists over {{a,b,c,d}} x 5 attachment levels (file level: depth <= 2 in quick); thorough adds all {exhaustive_d4} depth-4 expressions over the reduced alphabet at type level (5 % at the other levels); plus {n_random} random depth-4 expressions incl. two deep children and 1-3 cfg attributes per element, and {n_cli} trees through the real binary with --target-os a b / -t a b / --target-os=a,b / a repeated name in the middle / an empty entry / one -t per name / no option; decision read from generated TypeScript; a cell is distinct by (level, expression shape, |T|, expected decision)"
+            "cfg expressions over any/all/not with leaves target_os=a|b|c, feature, unix: all {n3} expressions of depth <= 3 (depth 1 complete, deeper levels pair one deep child with a leaf in both child orders) x all 16 target lists over {{a,b,c,d}} x 5 attachment levels (file level: depth <= 2 in quick), a quarter of the files writing `cfg (` / `cfg<newline>(`; thorough adds all {exhaustive_d4} depth-4 expressions over the reduced alphabet at type level (5 % at the other levels); plus {n_random} random depth-4 expressions incl. two deep children and 1-3 cfg attributes per element, and {n_cli} trees through the real binary with --target-os a b / -t a b / --target-os=a,b / a repeated name in the middle / an empty entry / one -t per name / no option; decision read from generated TypeScript; a cell is distinct by (level, expression shape, |T|, expected decision)"
         ),
         assumptions: vec![
             "the oracle is the rule as worded in the property: N = names under any not(...), P = the others, over all cfg attributes of the element".into(),
